@@ -316,36 +316,7 @@ def run(rep: Report, tier: str) -> None:
     mutated_in_visits = per_statement_state(P, rep, "R12.5")
 
     # ---- R12.6 -----------------------------------------------------------------------------------------
-    A = EffectAnalysis(P)
-    op_base = P.cls("vtlengine.Operators.Operator")
-    nmeth = 0
-    seen_ref: Set[str] = set()
-    for c in [op_base] + P.subclasses(op_base.qualname):
-        for name, f in c.methods.items():
-            if "validat" not in name:
-                continue
-            params = {p_: frozenset({("S", p_)}) for p_ in f.params if p_ not in ("self", "cls")}
-            if not params:
-                continue
-            nmeth += 1
-            summ = A.analyse(f, params, (f.qualname,))
-            rep.instance("R12.6", f.qualname, nontrivial=True,
-                         sample={"method": f.qualname, "operand_mutation_sites": len(summ.sites)} if c.qualname.endswith(("Operators.Binary", "Operators.Unary")) else None)
-            for s in summ.sites:
-                ref = [r for r in OPERAND_MUTATION_REFERENCE if r[0] == s.func and (s.norm or s.text).startswith(r[1])
-                       and (r[0].startswith("vtlengine.Operators.") or f.qualname in MODEL_SITE_ENTRIES.get(r, ()))]
-                if ref:
-                    seen_ref.add(f"{ref[0][0]}/{ref[0][1]}")
-                    continue
-                k = f"{s.func}/{(s.norm or s.text)[:70]}"
-                rep.add(Finding("R12.6", f"R12.6/{k}", s.file, s.line, s.func,
-                                f"`{s.text}` mutates an object reachable from operand(s) {list(s.origins)} of {f.qualname}: operands are the datasets "
-                                f"stored for later statements, so their structure would depend on which statements ran before", list(s.chain)))
-    rep.floor("operator validation methods analysed", nmeth, 80)
-    for r, why in OPERAND_MUTATION_REFERENCE.items():
-        rep.exemption("R12.6", f"{r[0]}/{r[1]}", why)
-        if f"{r[0]}/{r[1]}" not in seen_ref:
-            rep.note(f"R12.6 reference site no longer present: {r[0]}/{r[1]}")
+    nmeth = operand_mutations(P, rep, "R12.6")
     rep.rule("R12.9", "clause-level names produced by another statement become dependencies of EVERY statement that reads them (`:=` and `<-` producers alike)")
     unknown_resolution(P, rep, "R12.9")
     rep.analysed = {"ast_node_classes": len(N), "node_bearing_fields": nfields, "validation_methods": nmeth,
@@ -499,3 +470,45 @@ def per_statement_state(P: Program, rep: Report, rule: str) -> Dict[str, str]:
                                     f"statement leak into the analysis of every later-written statement", describe_path(p)))
                     break
     return mutated_in_visits
+
+
+
+def operand_mutations(P: Program, rep: Report, rule: str, module_prefixes: Tuple[str, ...] = ("vtlengine.Operators",), floor: int = 80) -> int:
+    """No validation method of an operator class mutates an object reachable from its operands (effect analysis from every
+    `*validat*` method, interprocedural).  Operands are the structures stored for later statements: a component renamed, re-typed or
+    deleted in place changes what the next statement that reads the same dataset sees.  Shared with C02 (clause validators) and C07
+    (check / check_datapoint / check_hierarchy validators), restricted there to the operator modules of the property."""
+    A = EffectAnalysis(P)
+    op_base = P.cls("vtlengine.Operators.Operator")
+    nmeth = 0
+    seen_ref: Set[str] = set()
+    for c in [op_base] + P.subclasses(op_base.qualname):
+        if not c.qualname.startswith(module_prefixes):
+            continue
+        for name, f in c.methods.items():
+            if "validat" not in name:
+                continue
+            params = {p_: frozenset({("S", p_)}) for p_ in f.params if p_ not in ("self", "cls")}
+            if not params:
+                continue
+            nmeth += 1
+            summ = A.analyse(f, params, (f.qualname,))
+            rep.instance(rule, f.qualname, nontrivial=True,
+                         sample={"method": f.qualname, "operand_mutation_sites": len(summ.sites)} if c.qualname.endswith(("Operators.Binary", "Operators.Unary", "Clause.Drop", "Validation.Check")) else None)
+            for s in summ.sites:
+                ref = [r for r in OPERAND_MUTATION_REFERENCE if r[0] == s.func and (s.norm or s.text).startswith(r[1])
+                       and (r[0].startswith("vtlengine.Operators.") or f.qualname in MODEL_SITE_ENTRIES.get(r, ()))]
+                if ref:
+                    seen_ref.add(f"{ref[0][0]}/{ref[0][1]}")
+                    continue
+                k = f"{s.func}/{(s.norm or s.text)[:70]}"
+                rep.add(Finding(rule, f"{rule}/{k}", s.file, s.line, s.func,
+                                f"`{s.text}` mutates an object reachable from operand(s) {list(s.origins)} of {f.qualname}: operands are the datasets "
+                                f"stored for later statements, so their structure would depend on which statements ran before", list(s.chain)))
+    rep.floor(f"{rule} operator validation methods analysed", nmeth, floor)
+    if module_prefixes == ("vtlengine.Operators",):
+        for r, why in OPERAND_MUTATION_REFERENCE.items():
+            rep.exemption(rule, f"{r[0]}/{r[1]}", why)
+            if f"{r[0]}/{r[1]}" not in seen_ref:
+                rep.note(f"{rule} reference site no longer present: {r[0]}/{r[1]}")
+    return nmeth
